@@ -1,5 +1,4 @@
 import BPT.Arena.Proofs
-import BPT.Generated.Tie
 /-
   C16 — CompactArena handles stay valid and unique until they are released.
 
